@@ -10,10 +10,11 @@ CONSTANTS
   Exec <- cExec
   Loc <- cLoc
   HotPos = {6}
+  IterAt <- cIterAt
   DataKnown = {"w"}
   DataUnknown = {"nosuch"}
   Sw <- cSw
-SPECIFICATION Spec
+SPECIFICATION SpecG
 
 CONSTANTS
   WritePos = {}
